@@ -10,6 +10,7 @@ import (
 	"time"
 
 	"verifharness/child"
+	"verifharness/gen"
 	"verifharness/ref"
 )
 
@@ -41,6 +42,10 @@ type loggerCase struct {
 	// a symbolic link into another directory: the operating system's meaning of the
 	// path, <dir>/elsewhere/record, is where the record belongs
 	SymlinkDir bool `json:"record_directory_behind_symlink,omitempty"`
+	// the event log directory is the same directory as the record's
+	SameDirs bool `json:"event_log_in_the_record_directory,omitempty"`
+	// the first write to the input has this many bytes (the first read gets exactly them)
+	FirstChunk int `json:"first_chunk,omitempty"`
 }
 
 // allParked: in a goroutine dump taken after SIGQUIT, is every goroutine that
@@ -82,6 +87,12 @@ func loggerInput(k loggerCase) []byte {
 	switch k.Content {
 	case "zeros":
 		return make([]byte, k.Size)
+	case "frames":
+		var b []byte
+		for len(b) < k.Size {
+			b = append(b, gen.RandFrame(r).Bytes...)
+		}
+		return b[:k.Size]
 	case "text":
 		b := make([]byte, k.Size)
 		for i := range b {
@@ -109,7 +120,9 @@ func execC16(c *child.Ctx, k loggerCase, cj []byte) {
 	if !k.NoOldDir {
 		cfgText += fmt.Sprintf(`, "directory_for_old_message_logs": %q`, filepath.Join(dir, "old"))
 	}
-	if !k.NoEventDir {
+	if k.SameDirs {
+		cfgText += fmt.Sprintf(`, "event_log_directory": %q`, logDir)
+	} else if !k.NoEventDir {
 		cfgText += fmt.Sprintf(`, "event_log_directory": %q`, filepath.Join(dir, "events"))
 	}
 	os.WriteFile(filepath.Join(dir, "cfg.json"), []byte(cfgText+"}"), 0644)
@@ -141,7 +154,7 @@ func execC16(c *child.Ctx, k loggerCase, cj []byte) {
 		extraEnv = append(extraEnv, "TZ="+k.TZ)
 	}
 	ak := appCase{ID: k.ID, StdinMode: "pipe", StdoutMode: "fast", Chunk: k.Chunk, ReaderUs: k.GapUs, Procs: k.Procs, HookProfile: k.Hook,
-		SilenceAfterChunks: k.SilenceAfterChunks, SilenceMs: k.SilenceMs, StdinNonblock: k.StdinNonblock}
+		SilenceAfterChunks: k.SilenceAfterChunks, SilenceMs: k.SilenceMs, StdinNonblock: k.StdinNonblock, FirstChunk: k.FirstChunk}
 	if k.Stdin == "file" {
 		ak.StdinMode = "file"
 	}
@@ -289,6 +302,16 @@ func monC16(c *child.Ctx, replay json.RawMessage) {
 		if i%9 == 4 {
 			k.SymlinkDir = true
 			c.Count("runs_with_record_directory_behind_a_symlink", 1)
+		}
+		if i%11 == 6 {
+			// the event log shares the record's directory
+			k.LogEvents, k.SameDirs, k.NoEventDir = true, true, false
+			c.Count("runs_with_event_log_in_the_record_directory", 1)
+		}
+		if i%5 == 1 && k.Stdin != "file" && k.SilenceMs == 0 && k.Size >= 8 {
+			// a stream that begins with a frame, its first few bytes arriving on their own
+			k.Content, k.Stdin, k.FirstChunk = "frames", "pipe", 1+i/5%8
+			c.Count("runs_with_a_tiny_first_read", 1)
 		}
 		if i == 2 && c.Batch == 0 || c.Thorough() && i%100 == 2 {
 			// a long session with the event log on: several megabytes through one process
